@@ -1,19 +1,26 @@
 // C12 — shared machinery of the robustness drivers (c12_text.cc, c12_verify.cc, c12_pgp.cc).
 //
-//  * fork harness: every case runs in a forked child with a CPU watchdog (RLIMIT_CPU, confirmed with a 10x
-//    limit before it is called a hang), a wall-clock alarm, a live-heap limit (sanitizer malloc hook) and a
-//    peak-RSS measurement (wait4).  The child reports a clean refusal / acceptance / std::exception by its
-//    exit code; everything else (signal, sanitizer report, assert, non-standard exception, hang, memory) is a
-//    violation that the *parent* records — the parent itself never runs library code on mutated input.
-//  * crash site: the child's stderr goes to a scratch file; the parent extracts the sanitizer error class,
-//    glibc's assertion text and the stack (unsymbolized pcs, resolved lazily by one llvm-symbolizer/addr2line
-//    coprocess per driver process with a cache) and keys the finding "c12/<target>/<kind>@<top library frame>".
-//  * sanitizer bridge: GMP and libgcrypt are not instrumented, so writes they perform into library buffers
-//    are invisible to ASan.  __gmpz_export, __gmpz_get_str and gcry_mpi_print are interposed here (the
-//    library objects are linked statically into the driver, so their calls bind to these definitions); the
-//    exact number of bytes about to be written is computed and checked with __asan_region_is_poisoned.
-//  * mutation engine: structure-aware catalogue for delimiter-separated text ('\n', '|', '^') and byte-level
-//    catalogue for short / binary inputs.  Mutations are enumerated in a fixed order, de-duplicated by content.
+//  * fork harness: library code only ever sees a mutated input inside a forked child; the parent never dies.
+//    Fast path: a batch (<= 256 cases, 16 for the 671 MB targets) runs in ONE child; before every case the child re-arms a
+//    CPU watchdog (ITIMER_PROF 15 s; 40 s for the 671 MB targets), a wall-clock alarm, resets the coin source / virtual
+//    clock (prologue) and the live-heap baseline, and reports one outcome byte per finished case through a pipe.  When the
+//    child ends abnormally the case it was running is re-run ALONE in its own child (exit code / signal / stderr of that
+//    run decide and attribute the violation); after a finding key has been confirmed alone twice, later hits of the same
+//    key are taken from the batch child's own report.  A watchdog hit is confirmed with a 10x limit before it is called a
+//    hang ("slow-but-terminating" otherwise).  `--batch 1` = strict fork per case (a fork costs 5-150 ms on this VM,
+//    which is why the batch path exists).  Peak RSS: wait4 of the isolated child (> 1 GiB = violation; a batch whose
+//    peak exceeds it has every case re-run alone); live heap: sanitizer malloc hook (> 3 GiB above the case baseline).
+//  * crash site: the child's stderr goes to a scratch file; the parent extracts the sanitizer error class, glibc's
+//    assertion text and the stack (unsymbolized pcs, resolved lazily by one llvm-symbolizer/addr2line coprocess per driver
+//    process with a cache) and keys the finding "c12/<target>/<kind>@<top library frame>".
+//  * sanitizer bridge: GMP and libgcrypt are not instrumented, so writes they perform into library buffers are invisible
+//    to ASan.  __gmpz_export, __gmpz_get_str and gcry_mpi_print are interposed here (the library objects are linked
+//    statically into the driver, so their calls bind to these definitions); the exact number of bytes about to be written
+//    is computed and checked with __asan_region_is_poisoned before forwarding (dlsym RTLD_NEXT).
+//  * mutation engine: structure-aware catalogue for delimiter-separated text ('\n', '|', '^') and byte-level catalogue
+//    for short / binary inputs, enumerated in a fixed order and de-duplicated by content.  A mutated input is a list of
+//    pieces of the seed and literals; its content hash comes from prefix hashes, the string is built only for cases that
+//    this shard runs (--stride k: every k-th distinct mutation; ids starting with "x" are never thinned).
 #ifndef C12_COMMON_HH
 #define C12_COMMON_HH
 #include "drv.hh"
